@@ -7,11 +7,14 @@ CFG = {
     "level_text": ("seeded exploration on a real standalone measure node whose rows are spread over series, 1-3 shards, day segments and parts by a generated history with real flushes and merges: "
                    "SUM/COUNT/MIN/MAX/MEAN with or without group-by (1-2 tags) and TOP/BOTTOM-N over the aggregated groups are compared with a reference computed from the model rows "
                    "(exact for integers, float fields use quarter values so sums are exact in any order)"),
-    "level_note": "standalone node only: the partial-aggregate reduction across data nodes and replica de-duplication at the coordinator are NOT exercised by this check (the cluster harness is not built); sums near the int64 limits are excluded from the exactness claim",
+    "level_note": ("scenario measure-aggregates runs on the standalone node; scenario cluster-aggregates runs on 1 liaison + 1-4 data nodes over the in-memory cluster transport (simnet over the real sub handlers): "
+                   "every data node computes partial aggregates (AggReturnPartial push-down, row or vectorized path), the liaison de-duplicates replica answers and reduces; shards 1-4, replicas 0-2, placements biased to "
+                   "'one shard per node' and 'one shard, replicated'. The placement is OBSERVED (shard directories of the data nodes); in placements where the recorded defect partials-not-per-shard applies "
+                   "(a node holding two shards for grouped aggregates, several nodes/shards for scalar ones) a disagreement is the known finding, everywhere else exactness is demanded. Transport is fault-free here (C17 injects wire faults)"),
     "budget": {"quick": 60, "thorough": 1200},
     "rule": ("each seed draws a schema (at least one int or float field), 2-8 history steps (batches up to 80 rows with small-domain tags, fields in [-100,100] with rare 2^40..2^62 magnitudes / clock advances), "
              "3-10 aggregate queries (function, field, 0-2 group tags, optional top/bottom N of 1-4, optional time bounds on written timestamps). Non-trivial = queries answered; distinct = canonical event-log digests"),
-    "expected_probes": ["reach.several_groups", "reach.aggregate_checked", "reach.top_n_checked"],
+    "expected_probes": ["reach.several_groups", "reach.aggregate_checked", "reach.top_n_checked", "reach.replicated_shards", "reach.partials_from_several_nodes_reduced", "reach.replicas_answer_for_one_shard", "reach.data_node_without_shard", "reach.placement_affected_by_known_partial_labelling"],
     "real_vs_stub": {
         "real": ["pkg/query/logical/measure (group-by, aggregation, top plans)", "pkg/query/aggregation", "banyand/measure query path over shards/segments/parts", "banyand/query measure processor", "liaison front-end"],
         "stub": ["metadata registry (simmeta)", "gRPC transport", "clock (testing/synctest)", "no data-node/coordinator split: partial aggregates are not on the wire"],
